@@ -13,7 +13,8 @@ def run(ck):
     ck.run_fixed({"every_registration_of_a_component_is_torn_down": "C05:resource-teardown",
                   "factories_waiting_on_each_other_complete": "C05:acyclic-pattern-failed",
                   "nested_tree_publications_release_waiters": "C05:acyclic-pattern-failed",
-                  "same_configuration_object_started_twice": "C05:once"})
+                  "same_configuration_object_started_twice": "C05:once",
+                  "tree_started_in_a_nested_context_belongs_to_it": "C05:resource-teardown"})
 
 
 def replay(ck, obj):
